@@ -207,6 +207,9 @@ type prover struct {
 	changerCache   map[string][]ssa.Instruction
 	structInvOK    map[string]bool
 	sents          map[sentKey]*ssa.Const
+	configLowerOK  map[string]bool
+	intLower       map[string]int64
+	intLowerBusy   bool
 	sentOf         map[ssa.Value]sentKey
 	callIdx        map[*ssa.Function][]ssa.CallInstruction
 	live           map[*ssa.Function]bool
@@ -217,7 +220,7 @@ type prover struct {
 
 func newProver(c *Ctx) *prover {
 	p := &prover{c: c, callers: map[*ssa.Function][]ssa.CallInstruction{}, fixedLen: map[string]int64{}, twoLen: map[string]int64{},
-		invCache: map[*ssa.Function]invEntry{}, inProgress: map[*ssa.Function]bool{}, retCache: map[retKey]retEntry{}, axiomsUsed: map[string]bool{}, preCache: map[*ssa.Function]preEntry{}, preBusy: map[*ssa.Function]bool{}, retBusy: map[retKey]bool{}, loadCache: map[*ssa.Function][]fieldLoad{}, lenRetCache: map[retKey][]lenRetFact{}, storeSets: map[string]map[*ssa.Function]bool{}, changerCache: map[string][]ssa.Instruction{}, structInvOK: map[string]bool{}, sents: map[sentKey]*ssa.Const{}, sentOf: map[ssa.Value]sentKey{}}
+		invCache: map[*ssa.Function]invEntry{}, inProgress: map[*ssa.Function]bool{}, retCache: map[retKey]retEntry{}, axiomsUsed: map[string]bool{}, preCache: map[*ssa.Function]preEntry{}, preBusy: map[*ssa.Function]bool{}, retBusy: map[retKey]bool{}, loadCache: map[*ssa.Function][]fieldLoad{}, lenRetCache: map[retKey][]lenRetFact{}, storeSets: map[string]map[*ssa.Function]bool{}, changerCache: map[string][]ssa.Instruction{}, structInvOK: map[string]bool{}, configLowerOK: map[string]bool{}, sents: map[sentKey]*ssa.Const{}, sentOf: map[ssa.Value]sentKey{}}
 	p.scanTables()
 	p.scanStable()
 	reps := map[string]ssa.Value{}
@@ -388,6 +391,70 @@ func earlierSameLoad(u *ssa.UnOp) ssa.Value {
 		}
 	}
 	return nil
+}
+
+// nilOrLen: the slice value is either nil or has exactly n elements (n == 0: only nil seen so far)
+func (p *prover) nilOrLen(v ssa.Value, depth int) (int64, bool) {
+	v = strip(v)
+	if depth > 4 {
+		return 0, false
+	}
+	if k, ok := v.(*ssa.Const); ok && k.IsNil() {
+		return 0, true
+	}
+	if n, ok := constMakeLen(v); ok {
+		return n, true
+	}
+	if k := tableKey(v); k != "" {
+		if n, ok := p.twoLen[k]; ok {
+			return n, true
+		}
+		if n, ok := p.fixedLen[k]; ok {
+			return n, true
+		}
+		return 0, false
+	}
+	merge := func(vals []ssa.Value) (int64, bool) {
+		var n int64
+		for _, e := range vals {
+			m, ok := p.nilOrLen(e, depth+1)
+			if !ok {
+				return 0, false
+			}
+			if m != 0 {
+				if n != 0 && n != m {
+					return 0, false
+				}
+				n = m
+			}
+		}
+		return n, true
+	}
+	switch x := v.(type) {
+	case *ssa.Phi:
+		return merge(x.Edges)
+	case *ssa.Parameter:
+		fn := x.Parent()
+		sites, ok := p.knownCallers(fn)
+		if !ok || len(sites) == 0 {
+			return 0, false
+		}
+		idx := -1
+		for i, q := range fn.Params {
+			if q == x {
+				idx = i
+			}
+		}
+		var args []ssa.Value
+		for _, site := range sites {
+			if site.Parent() == fn || idx >= len(site.Common().Args) {
+				return 0, false
+			}
+			args = append(args, site.Common().Args[idx])
+		}
+		return merge(args)
+	}
+	return 0, false
 }
 
 func zeroT() term { return term{} }
@@ -766,8 +833,18 @@ func (p *prover) defs(s *factSet, t term, seen map[term]bool, depth int) {
 			}
 		}
 		if fa, ok := strip(u.X).(*ssa.FieldAddr); ok {
-			if lo, ok := p.fieldLower[fieldName(fa.X.Type(), fa.Field)]; ok {
+			fname := fieldName(fa.X.Type(), fa.Field)
+			if lo, ok := f6ConfigLower[fname]; ok && p.configLowerOK[fname] {
 				s.le(zeroT(), t, -lo)
+				p.noteUse("verified configuration: " + fname + " >= " + fmt.Sprint(lo) + " (VerifyConfig rejects smaller values: C07.R1c, C16)")
+			}
+			if p.immutableField[fname] && !p.intLowerBusy {
+				p.intLowerBusy = true
+				il := p.intFieldLowerFacts()
+				p.intLowerBusy = false
+				if lo, ok := il[fname]; ok {
+					s.le(zeroT(), t, -lo)
+				}
 			}
 		}
 	}
@@ -919,10 +996,8 @@ func (p *prover) condFacts(s *factSet, cond ssa.Value, truth bool, seen map[term
 					s.nonEmpty = map[ssa.Value]bool{}
 				}
 				s.nonEmpty[lenKey(em.X)] = true
-				if k := tableKey(em.X); k != "" {
-					if n, ok := p.twoLen[k]; ok {
-						s.eq(lt, zeroT(), n)
-					}
+				if n, ok := p.nilOrLen(em.X, 0); ok && n > 0 {
+					s.eq(lt, zeroT(), n)
 				}
 			}
 		}
@@ -1012,8 +1087,24 @@ func (p *prover) edgeFacts(s *factSet, fn *ssa.Function, at ssa.Instruction, see
 // hypF: an induction hypothesis about the phis of block blk; usable only where blk dominates
 // (on the entry edges of blk the phis are not defined yet: using the hypothesis there would be circular)
 type hypF struct {
-	f   fact
-	blk *ssa.BasicBlock // nil: unconditional
+	f     fact
+	blk   *ssa.BasicBlock // nil: unconditional
+	cond  ssa.Value       // when set: the hypothesis is "cond == truth" (the condition of the edge being followed)
+	truth bool
+}
+
+// edgeHyp: the condition under which control goes from pred to blk
+func edgeHyp(pred, blk *ssa.BasicBlock) []hypF {
+	iff, ok := pred.Instrs[len(pred.Instrs)-1].(*ssa.If)
+	if !ok || len(pred.Succs) != 2 || pred.Succs[0] == pred.Succs[1] {
+		return nil
+	}
+	truth := pred.Succs[0] == blk
+	var cb *ssa.BasicBlock
+	if in, ok := iff.Cond.(ssa.Instruction); ok {
+		cb = in.Block()
+	}
+	return []hypF{{cond: iff.Cond, truth: truth, blk: cb}}
 }
 
 func usable(h hypF, at ssa.Instruction) bool {
@@ -1045,6 +1136,10 @@ func (p *prover) collectMulti(fn *ssa.Function, at ssa.Instruction, goalTerms []
 	seen := map[term]bool{}
 	for _, h := range hyp {
 		if usable(h, at) {
+			if h.cond != nil {
+				p.condFacts(s, h.cond, h.truth, seen)
+				continue
+			}
 			s.le(h.f.a, h.f.b, h.f.c)
 			p.defs(s, h.f.a, seen, 0)
 			p.defs(s, h.f.b, seen, 0)
@@ -1093,23 +1188,17 @@ func (p *prover) collectMulti(fn *ssa.Function, at ssa.Instruction, goalTerms []
 			if t.isLn || t.v == nil {
 				continue
 			}
-			// t = idx + len(sub) with idx = strings.Index(s, sub) and idx >= 0  =>  t <= len(s)
-			if bo, ok := t.v.(*ssa.BinOp); ok && bo.Op == token.ADD {
-				for _, pair := range [][2]ssa.Value{{bo.X, bo.Y}, {bo.Y, bo.X}} {
-					cl, ok := strip(pair[0]).(*ssa.Call)
-					if !ok || cl.Common().StaticCallee() == nil {
-						continue
-					}
-					n := extName(cl.Common().StaticCallee())
-					if n != "strings.Index" && n != "strings.LastIndex" {
-						continue
-					}
-					ln, ok := strip(pair[1]).(*ssa.Call)
-					if !ok || !isBuiltin(ln, "len") || lenKey(ln.Call.Args[0]) != lenKey(cl.Common().Args[1]) {
-						continue
-					}
-					if implies(s, zeroT(), valT(cl), 0) { // idx >= 0 known here
-						s.le(t, lenT(cl.Common().Args[0]), 0)
+			// idx = strings.Index(s, sub) and idx >= 0  =>  idx + len(sub) <= len(s)
+			if cl, ok := t.v.(*ssa.Call); ok && cl.Common().StaticCallee() != nil {
+				switch extName(cl.Common().StaticCallee()) {
+				case "strings.Index", "strings.LastIndex", "bytes.Index", "bytes.LastIndex":
+					if implies(s, zeroT(), t, 0) {
+						l := newLin(0)
+						l.addF(t, 1)
+						l.addF(lenT(cl.Common().Args[1]), 1)
+						l.addF(lenT(cl.Common().Args[0]), -1)
+						s.fs = append(s.fs, l)
+						p.defs(s, lenT(cl.Common().Args[1]), seen, 1)
 					}
 				}
 			}
@@ -1153,8 +1242,8 @@ func (p *prover) prove(fn *ssa.Function, at ssa.Instruction, a, b term, c int64,
 		p.taint = true
 		return false
 	}
-	// accepted assumptions (reviewed table), recorded as used
-	if p.axiom(fn, at, a, b, c) {
+	// case analysis over join phis mentioned by the goal or the facts
+	if p.proveSplitX(fn, at, a, b, c, hyp, 2, map[*ssa.Phi]bool{}, false) {
 		return true
 	}
 	// results of module functions: prove the goal at every return of the callee
@@ -1239,12 +1328,12 @@ func (p *prover) prove(fn *ssa.Function, at ssa.Instruction, a, b term, c int64,
 		blk := phi.Block()
 		p.depth++
 		okAll := true
-		goal := hypF{fact{a, b, c}, blk}
+		goal := hypF{f: fact{a, b, c}, blk: blk}
 		for i := range phi.Edges {
 			pred := blk.Preds[i]
 			term0 := pred.Instrs[len(pred.Instrs)-1]
 			na, nb := substEdge(a, blk, i), substEdge(b, blk, i)
-			if !p.prove(fn, term0, na, nb, c, append(append([]hypF{}, hyp...), goal)) {
+			if !p.prove(fn, term0, na, nb, c, append(append(append([]hypF{}, hyp...), goal), edgeHyp(pred, blk)...)) {
 				okAll = false
 				break
 			}
@@ -1385,7 +1474,7 @@ func (p *prover) invariants(fn *ssa.Function) []hypF {
 		var hyps []hypF
 		for i, c := range cands {
 			if alive[i] {
-				hyps = append(hyps, hypF{c.f, c.blk})
+				hyps = append(hyps, hypF{f: c.f, blk: c.blk})
 			}
 		}
 		for i, c := range cands {
@@ -1397,6 +1486,7 @@ func (p *prover) invariants(fn *ssa.Function) []hypF {
 				pred := c.blk.Preds[e]
 				term0 := pred.Instrs[len(pred.Instrs)-1]
 				na, nb := substEdge(c.f.a, c.blk, e), substEdge(c.f.b, c.blk, e)
+				hyps := append(append([]hypF{}, hyps...), edgeHyp(pred, c.blk)...)
 				if !p.proveFlat(fn, term0, na, nb, c.f.c, hyps) {
 					if dbg := os.Getenv("SLOGCHECK_F6CAND"); dbg != "" && strings.Contains(anchorName(fn), dbg) {
 						fmt.Printf("F6CAND %s blk%d: %s - %s <= %d fails on edge %d (from blk%d): %s - %s\n", anchorName(fn), c.blk.Index, termStr(c.f.a), termStr(c.f.b), c.f.c, e, pred.Index, termStr(na), termStr(nb))
@@ -1425,7 +1515,7 @@ func (p *prover) invariants(fn *ssa.Function) []hypF {
 	var inv []hypF
 	for i, c := range cands {
 		if alive[i] {
-			inv = append(inv, hypF{c.f, c.blk})
+			inv = append(inv, hypF{f: c.f, blk: c.blk})
 		}
 	}
 	if dbg := os.Getenv("SLOGCHECK_F6INV"); dbg != "" && strings.Contains(anchorName(fn), dbg) {
@@ -1448,12 +1538,12 @@ func (p *prover) proveFlat(fn *ssa.Function, at ssa.Instruction, a, b term, c in
 }
 
 func (p *prover) proveSplit(fn *ssa.Function, at ssa.Instruction, a, b term, c int64, hyp []hypF, d int) bool {
-	return p.proveSplitX(fn, at, a, b, c, hyp, d, map[*ssa.Phi]bool{})
+	return p.proveSplitX(fn, at, a, b, c, hyp, d, map[*ssa.Phi]bool{}, true)
 }
 
-func (p *prover) proveSplitX(fn *ssa.Function, at ssa.Instruction, a, b term, c int64, hyp []hypF, d int, split map[*ssa.Phi]bool) bool {
+func (p *prover) proveSplitX(fn *ssa.Function, at ssa.Instruction, a, b term, c int64, hyp []hypF, d int, split map[*ssa.Phi]bool, direct bool) bool {
 	p.steps++
-	s, seen := p.collect(fn, at, a, b, hyp, true)
+	s, seen := p.collect(fn, at, a, b, hyp, direct)
 	if implies(s, a, b, c) {
 		return true
 	}
@@ -1480,8 +1570,8 @@ func (p *prover) proveSplitX(fn *ssa.Function, at ssa.Instruction, a, b term, c 
 		split[phi] = true
 		okAll := true
 		for _, e := range phi.Edges {
-			h2 := append(append([]hypF{}, hyp...), hypF{fact{valT(phi), valT(e), 0}, nil}, hypF{fact{valT(e), valT(phi), 0}, nil})
-			if !p.proveSplitX(fn, at, a, b, c, h2, d+1, split) {
+			h2 := append(append([]hypF{}, hyp...), hypF{f: fact{valT(phi), valT(e), 0}}, hypF{f: fact{valT(e), valT(phi), 0}})
+			if !p.proveSplitX(fn, at, a, b, c, h2, d+1, split, direct) {
 				okAll = false
 				break
 			}
@@ -2226,7 +2316,7 @@ func (p *prover) proveOblig(fn *ssa.Function, o idxOblig) (bool, string) {
 	}
 	hyp := []hypF{}
 	if n := arrayLen(x.Type()); n >= 0 {
-		hyp = append(hyp, hypF{fact{ln, zeroT(), n}, nil}, hypF{fact{zeroT(), ln, -n}, nil})
+		hyp = append(hyp, hypF{f: fact{ln, zeroT(), n}}, hypF{f: fact{zeroT(), ln, -n}})
 	}
 	switch o.Kind {
 	case "index":
